@@ -487,7 +487,7 @@ func SetSlice(dest reflect.Value, objects interface{}) error {
 	}
 
 	if ref, ok := objects.(*_refHolder); ok {
-		v, err := ConvertSliceValueType(destTyp, ref.value)
+		v, err := convertSliceValueType(destTyp, ref.value, ref.conv)
 		if err != nil {
 			return err
 		}
@@ -525,6 +525,14 @@ func SetSlice(dest reflect.Value, objects interface{}) error {
 }
 
 func ConvertSliceValueType(destTyp reflect.Type, v reflect.Value) (reflect.Value, error) {
+	return convertSliceValueType(destTyp, v, nil)
+}
+
+// convertSliceValueType converts with a memo of converted generic maps (the
+// decoder's, when it is the decoder that converts): without one, the elements
+// of this one list that refer to one generic map share its conversion; with
+// it, so do the elements of all the lists converted with that memo.
+func convertSliceValueType(destTyp reflect.Type, v reflect.Value, mapsSeen map[_mapConversion]reflect.Value) (reflect.Value, error) {
 	if destTyp == v.Type() {
 		return v, nil
 	}
@@ -545,8 +553,6 @@ func ConvertSliceValueType(destTyp reflect.Type, v reflect.Value) (reflect.Value
 	elemUintType := UintKind(elemKind)
 
 	sl := reflect.MakeSlice(destTyp, v.Len(), v.Len())
-	// elements that refer to one generic map share one conversion of it
-	var mapsSeen map[_mapConversion]reflect.Value
 	var itemValue reflect.Value
 	for i := 0; i < v.Len(); i++ {
 		item := v.Index(i).Interface()
